@@ -2,4 +2,4 @@
 From PV Require Import Base.Prelude Spec.LuaLex Instances.HoldsC07.
 Require Extraction.
 Require Import ExtrOcamlBasic.
-Extraction "../ocaml/build/MonC07.ml" io_types spec_lex diff_C07 holds_C07 holds_C07_error holds_C07_chunking spec_token_count skind_code.
+Extraction "../ocaml/build/MonC07.ml" io_types spec_lex diff_C07 holds_C07 holds_C07_error holds_C07_chunking spec_token_count spec_token_count_e skind_code.
